@@ -9,7 +9,7 @@
 #     (re-extracted from the same headers by tools/extract.py);
 #   * the position of an element inside the bucket (`index = UIntMath<>::Dist(items, iter)`: pointer arithmetic on the item
 #     array) is a parameter; the statements that compute it / construct, move or destroy items / touch the pointer state are
-#     erased by the `pre` patterns listed with each function (they do not touch the metadata bytes). If the erased shape
+#     erased by the `cut` patterns (each must match exactly once) listed with each function (they do not touch the metadata bytes). If the erased shape
 #     changes, what is left no longer parses and the function is reported as not translatable.
 #   * `hashCodeFullGetter()` is the parameter `full`.
 
@@ -49,7 +49,7 @@ FUNCS = [
          anchor=r"size_t GetHashCodePart\(const HashCodeFullGetter& hashCodeFullGetter, Iterator iter,\s*size_t bucketIndex, size_t logBucketCount, size_t newLogBucketCount\)",
          params=[("useHashCodePartGetter", "bool"), ("hashCount", U64), ("index", U64), ("full", U64), ("bucketIndex", U64),
                  ("logBucketCount", U64), ("newLogBucketCount", U64)],
-         fields=[("mShortHashes", U8A)], ret=U64, lean_type="Nat", consts=_P4, pre=_ERASE_INDEX_P4,
+         fields=[("mShortHashes", U8A)], ret=U64, lean_type="Nat", consts=_P4, cut=_ERASE_INDEX_P4,
          accessors={"hashCodeFullGetter": "full"},
          calls={"pvGetProbeShift": ("limp4_pvGetProbeShift", [U64], U64, [])}),
     # the `else` block (count > 1) of Remove: the byte compaction. `count = pvGetCount()` and `index` are parameters.
@@ -57,7 +57,7 @@ FUNCS = [
          anchor=r"(?s)Iterator Remove\(Params& params, Iterator iter, ItemReplacer&& itemReplacer\)\s*\{.*?pvSetEmpty\(memPoolIndex\);\s*return nullptr;\s*\}\s*else(?=\s*\{)",
          params=[("useHashCodePartGetter", "bool"), ("hashCount", U64), ("count", U64), ("index", U64)],
          fields=[("mShortHashes", U8A)], writes=["mShortHashes"], ret=None, lean_type="Nat → Nat", consts=_P4,
-         pre=[(r"size_t\s+index\s*=\s*UIntMath<>::Dist\(items,\s*iter\);", ""),
+         cut=[(r"size_t\s+index\s*=\s*UIntMath<>::Dist\(items,\s*iter\);", ""),
               (r"std::forward<ItemReplacer>\(itemReplacer\)\(items\[count - 1\],\s*\*iter\);", ""),
               (r"pvSetPtrState\(items,\s*memPoolIndex\);", ""), (r"return iter;", "return;")]),
     # ------------------------------------------------------------------ BucketOpen2N2 (useHashCodePartGetter = true: ShortHash = uint8_t)
@@ -76,7 +76,7 @@ FUNCS = [
          params=[("useHashCodePartGetter", "bool"), ("maxCount", U64), ("hashCode", U64), ("logBucketCount", U64), ("probe", U64)],
          fields=[("shortHashes", U8A), ("hashProbes", U8A), ("mState_1", "u8")], writes=["shortHashes", "hashProbes", "mState_1"],
          ret=None, lean_type="(Nat → Nat) × (Nat → Nat) × Nat", consts=_O2,
-         pre=_O2PRE + [(r"Item\*\s*newItem\s*=\s*&mItems \+ maxCount - 1 - count;", ""),
+         pre=_O2PRE, cut=[(r"Item\*\s*newItem\s*=\s*&mItems \+ maxCount - 1 - count;", ""),
                        (r"std::forward<ItemCreator>\(itemCreator\)\(newItem\);", ""),
                        (r"return Iterator\(newItem \+ 1\);", "return;")],
          calls={"pvGetCount": ("open2n2_pvGetCount", [], U64, ["mState_1"]),
@@ -87,7 +87,7 @@ FUNCS = [
          params=[("useHashCodePartGetter", "bool"), ("maxCount", U64), ("index", U64)],
          fields=[("shortHashes", U8A), ("hashProbes", U8A), ("mState_1", "u8")], writes=["shortHashes", "hashProbes", "mState_1"],
          ret=None, lean_type="(Nat → Nat) × (Nat → Nat) × Nat", consts=_O2,
-         pre=_O2PRE + [(r"size_t\s+index\s*=\s*UIntMath<>::Dist\(&mItems,\s*std::addressof\(\*iter\)\);", ""),
+         pre=_O2PRE, cut=[(r"size_t\s+index\s*=\s*UIntMath<>::Dist\(&mItems,\s*std::addressof\(\*iter\)\);", ""),
                        (r"std::forward<ItemReplacer>\(itemReplacer\)\(\(&mItems\)\[maxCount - count\],\s*\(&mItems\)\[index\]\);", ""),
                        (r"return iter;", "return;")],
          calls={"pvGetCount": ("open2n2_pvGetCount", [], U64, ["mState_1"])}),
@@ -96,7 +96,7 @@ FUNCS = [
          params=[("useHashCodePartGetter", "bool"), ("index", U64), ("full", U64), ("bucketIndex", U64),
                  ("logBucketCount", U64), ("newLogBucketCount", U64)],
          fields=[("shortHashes", U8A), ("hashProbes", U8A)], ret=U64, lean_type="Nat", consts=_O2,
-         pre=_O2PRE + [(r"size_t\s+index\s*=\s*UIntMath<>::Dist\(&mItems,\s*std::addressof\(\*iter\)\);", "")],
+         pre=_O2PRE, cut=[(r"size_t\s+index\s*=\s*UIntMath<>::Dist\(&mItems,\s*std::addressof\(\*iter\)\);", "")],
          accessors={"hashCodeFullGetter": "full"},
          calls={"pvGetProbeShift": ("open2n2_pvGetProbeShift", [U64], U64, [])}),
     # ------------------------------------------------------------------ BucketOne: HashState = uint8_t / uint16_t / uint32_t (first
@@ -116,6 +116,6 @@ FUNCS = [
          anchor=r"size_t GetHashCodePart\(const HashCodeFullGetter& hashCodeFullGetter, Iterator iter,\s*size_t\s*, size_t\s*, size_t\s*\)",
          params=[("stateSize", U64), ("full", U64)], fields=[("mHashState", U64)], ret=U64, lean_type="Nat",
          consts={"sizeof(HashState)": ("stateSize", U64), "sizeof(size_t)": ("8", U64)},
-         pre=[(r"\(void\)iter;", ""), (r"MOMO_ASSERT\(iter == &mItemBuffer\);", "")],
+         cut=[(r"\(void\)iter;", ""), (r"MOMO_ASSERT\(iter == &mItemBuffer\);", "")],
          accessors={"hashCodeFullGetter": "full"}),
 ]
